@@ -180,20 +180,27 @@ def handlePlatX (cfg : List String) : String :=
 /-! ## The runner's platform for a GPU list (`c18 runner`)
 
 `amd/samples/runner`: the flags `-gpus=a,b,…` / `-unified-gpus=a,b,…` give `r.GPUIDs` in the order written;
-`buildEmuPlatform` / `buildTimingPlatform` build `r.GPUIDs[len(r.GPUIDs)-1]` GPUs (`Gen.C18Plat.runnerNumGPUs`)
-— the LAST id of the list, not the largest —; `createUnifiedGPUs` passes the whole list to
+`buildEmuPlatform` / `buildTimingPlatform` build `r.numGPUsToBuild()` GPUs (`Gen.C18Plat.runnerNumGPUs`, body
+`runnerNumGPUsBody`): the LARGEST id of the list (repaired; before: `r.GPUIDs[len(r.GPUIDs)-1]`, the LAST id, kept
+as `runnerBuiltOld`); `createUnifiedGPUs` passes the whole list to
 `Driver.CreateUnifiedGPU`, whose `mustBeAllActualGPUs` indexes `d.devices` (host = 0, GPUs `1 … built`)
 with every id; a plain benchmark later calls `Driver.SelectGPU` with every id. -/
 
 /-- number of GPUs of the platform the runner builds for the list `ids` (the flag parser never gives an
     empty list) -/
-def runnerBuilt (ids : List Nat) : Nat := ids.getLast?.getD 0
+def runnerBuilt (ids : List Nat) : Nat := ids.foldl (fun n id => if id > n then id else n) 0
+
+/-- the same before the repair: the last id of the list -/
+def runnerBuiltOld (ids : List Nat) : Nat := ids.getLast?.getD 0
 
 /-- `CreateUnifiedGPU` panics: an id beyond the devices (index out of range) or the host (not a GPU) -/
 def unifyFaults (built : Nat) (ids : List Nat) : Bool := ids.isEmpty || ids.any fun i => decide (i = 0 ∨ built < i)
 
 /-- the listed GPUs a benchmark cannot select on that platform -/
 def runnerMissing (ids : List Nat) : List Nat := ids.filter fun i => decide (runnerBuilt ids < i)
+
+/-- … on the platform the runner built before the repair -/
+def runnerMissingOld (ids : List Nat) : List Nat := ids.filter fun i => decide (runnerBuiltOld ids < i)
 
 def handleRunner (cfg : List String) : String :=
   match kvNat? cfg "unified", (kv? cfg "gpus").bind (natList? ·) with
